@@ -49,6 +49,7 @@ using namespace drv;
 
 static Report *R;
 static uint64_t SEED;
+static int MAXDEPTH = 2;   // --maxdepth 1: single cuts only (ASan pass of the thorough tier)
 
 // ------------------------------------------------------------------------------------------------ utilities
 static void die(const std::string &what)
@@ -530,6 +531,7 @@ template<class AIO> static void add_frag_cells(const Mode *modes, size_t nmodes,
 			{
 				if (sched != aiounicast::aio_scheduler_roundrobin && !exs[xi].allsched) continue;
 				int depth = thorough ? exs[xi].dt : exs[xi].dq;
+				depth = std::min(depth, MAXDEPTH);
 				if (sched != aiounicast::aio_scheduler_roundrobin) depth = std::min(depth, (thorough && exs[xi].e.size() <= 2 && w.bytes.size() < 260) ? 2 : 1);
 				Cell C;
 				C.id = std::string("a/") + Tr<AIO>::name() + "/" + m.name + "/" + exs[xi].name + "/" + SCHED_NAME[sched];
@@ -876,7 +878,8 @@ int main(int argc, char **argv)
 	setup_pools();
 	init_values();
 	bool thorough = (A.tier == "thorough");
-	if (A.has("depth1")) thorough = false;   // the ASan pass of the thorough tier re-runs the quick bounds
+	if (A.has("depth1")) thorough = false;   // re-run the quick bounds inside the thorough tier
+	MAXDEPTH = (int)A.geti("maxdepth", 2);
 	std::string part = A.get("part", "all");
 	const size_t NS = sizeof(MODES_SELECT) / sizeof(Mode), NN = sizeof(MODES_NONBLOCK) / sizeof(Mode);
 	if (part == "frag" || part == "all") add_frag_cells<aiounicast_select>(MODES_SELECT, NS, thorough), add_frag_cells<aiounicast_nonblock>(MODES_NONBLOCK, NN, thorough);
